@@ -60,6 +60,8 @@ def unit(u, res):
         return unit_display(u, res)
     if kind == 'e2e':
         return unit_lex(u, res, entry='eval')
+    if kind == 'lexclass':
+        return unit_lexclass(u, res)
     raise ValueError(kind)
 
 
@@ -219,7 +221,9 @@ def unit_display(u, res):
     C = ctx(ofc)
     pr = checklib.Prover(res, timeout_ms, CVC5_RATE[0], random.Random(zlib.crc32(repr(u).encode()) ^ checklib.env_seed()))
     cons = []
-    if what[0] == 'value':
+    if what[0] == 'value' and what[1] == 'LONG':
+        target = C.v_tuple([C.v_str(long_str(cons, 'val')), C.v_tuple([C.v_str(long_str(cons, 'val2', 40))])])
+    elif what[0] == 'value':
         v, spec = make_value(C, what[1], 'd', cons)
         target = v
     elif what[0] == 'error':
@@ -227,7 +231,7 @@ def unit_display(u, res):
         fields = C.meta.enums['EvalexprError'][ev][1]
         target = None
         name = C.meta.enums['EvalexprError'][ev][0]
-        target = make_error(C, name, cons)
+        target = make_error(C, name, cons, long=(len(what) > 2 and what[2] == 'long'))
         if target is None:
             return
     elif what[0] == 'operator':
@@ -275,9 +279,29 @@ def unit_display(u, res):
         res.samples.append(dict(unit=name, rendered=repr(o.value) if o is not None and o.kind == 'return' else None))
 
 
-def make_error(C, name, cons):
+def long_str(cons, tag, n=31):
+    """a string of n ASCII characters, one completely free character, and a tail: byte-offset arithmetic on it can hit the middle of a character"""
+    v = z3.BitVec('long_%s' % tag, 32)
+    cons.append(valid_scalar(v))
+    return SStr([mkchar('a')] * n + [Int(v, False)] + [mkchar('b'), mkchar('c')])
+
+
+def make_error(C, name, cons, long=False):
     """one instance of each EvalexprError variant with symbolic payloads"""
     VI = C.VI
+    if long:
+        ls = lambda t: long_str(cons, t)
+        lv = lambda t: C.v_tuple([C.v_str(long_str(cons, t + 'v')), C.v_int(z3.BitVec('lv_' + t, 64))])
+        f2 = {
+            'VariableIdentifierNotFound': lambda: [ls('v')], 'FunctionIdentifierNotFound': lambda: [ls('f')], 'CustomMessage': lambda: [ls('c')],
+            'IllegalEscapeSequence': lambda: [ls('e')], 'InvalidRegex': lambda: [ls('r'), ls('m')],
+            'ExpectedString': lambda: [lv('a')], 'ExpectedInt': lambda: [lv('a')], 'TypeError': lambda: [VecV([Adt('ValueType', 0, [])]), lv('a')],
+            'AdditionError': lambda: [lv('a'), lv('b')],
+            'UnmatchedPartialToken': lambda: [Adt('PartialToken', VI('PartialToken', 'Literal'), [ls('p')]), some(Adt('PartialToken', VI('PartialToken', 'Literal'), [ls('q')]))],
+        }.get(name)
+        if f2 is None:
+            return None
+        return Adt('EvalexprError', VI('EvalexprError', name), f2())
     val = lambda p: make_value(C, 'T[I,S1]', p, cons)[0]
     u = lambda n: usize(n)
     f = {
@@ -338,6 +362,50 @@ def lex_templates(tier):
     return out + structured
 
 
+def unit_lexclass(u, res):
+    """tokenize a literal whose characters are free inside a character class (digits / hex digits / word characters): long literals at the
+    integer-range boundary and long identifiers, which the completely free templates cannot reach"""
+    _, spec, ofc, timeout_ms, seed = u
+    prefix, cls, n, suffix = spec
+    C = ctx(ofc)
+    pr = checklib.Prover(res, timeout_ms, CVC5_RATE[0], random.Random(zlib.crc32(repr(u).encode()) ^ checklib.env_seed()))
+    cons = []
+    chars = [mkchar(ch) for ch in prefix]
+    free = []
+    for i in range(n):
+        v = z3.BitVec('k%d' % i, 32)
+        rng = lambda a, b: z3.And(z3.UGE(v, ord(a)), z3.ULE(v, ord(b)))
+        if cls == 'digit':
+            cons.append(rng('0', '9'))
+        elif cls == 'hex':
+            cons.append(z3.Or(rng('0', '9'), rng('a', 'f'), rng('A', 'F')))
+        else:
+            import c06
+            cons.append(c06.word_char(v))
+        chars.append(Int(v, False))
+        free.append(v)
+    chars += [mkchar(ch) for ch in suffix]
+    name = 'eval %r + %d free %s characters + %r' % (prefix, n, cls, suffix)
+    t0 = time.time()
+    try:
+        ex, outs = C.run('eval', lambda st: [ref_to(st, SStr(chars))], pc=cons)
+    except Unsupported as x:
+        res.inconclusive.append('%s: unsupported: %s @ %s' % (name, x, getattr(x, 'where', None)))
+        return
+    res.exec_s += time.time() - t0
+    res.feas_queries += ex.nq
+    res.bodies |= ex.bodies_used
+    res.models |= ex.models_used
+    res.paths += len(outs)
+    res.nontrivial_paths += len(outs)
+
+    def wit(m):
+        return ''.join(chr(z3.simplify(m.eval(c.t, model_completion=True)).as_long()) for c in chars)
+    record_panics(res, pr, name, outs, lambda m: repr(wit(m)), lambda o: 'panic in tokenizer / evaluation of a long literal', extra=lambda m: dict(source=wit(m)))
+    if len(res.samples) < 1:
+        res.samples.append(dict(unit=name, paths=len(outs), overflow_checks=ofc))
+
+
 def e2e_templates(tier):
     out = ['\x00', '\x00\x00', '1\x002', '\x001', 'a\x00', '(\x00)', '1\x00\x002', 'shl(1,\x00\x00)', 'len("\x00\x00")', 'str::substring("\x00\x00",1)', '"\x00"+"\x00"',
            '-\x00', 'max(\x00,2)', 'a=\x00;a', '1\x00(2)', '\x00(\x00']
@@ -382,6 +450,10 @@ def main():
         tmpls = lex_templates(tier)
         for t in tmpls:
             units.append(('lex', [t], ofc, timeout_ms, seed))
+        for spec in [('', 'digit', 19, ''), ('', 'digit', 20, ''), ('0x', 'hex', 16, ''), ('0x', 'hex', 17, ''), ('-', 'digit', 19, ''), ('1e', 'digit', 3, ''), ('', 'digit', 18, '.5'),
+                     ('', 'word', 3, ''), ('', 'word', 2, '(1)'), ('x', 'word', 2, ' = 1')] + \
+                ([('a' * 30, 'word', 3, ''), ('', 'word', 4, '')] if tier != 'quick' else [('a' * 31, 'word', 2, '')]):
+            units.append(('lexclass', spec, ofc, timeout_ms, seed))
         # whole pipeline: eval(string) = tokenize ; build tree ; evaluate in a fresh HashMapContext, with free characters in the source
         for t in e2e_templates(tier):
             units.append(('e2e', [t], ofc, timeout_ms, seed))
@@ -390,6 +462,8 @@ def main():
         nerr = len(ctx(ofc).meta.enums['EvalexprError'])
         for ev in range(nerr):
             units.append(('display', ('error', ev), ofc, timeout_ms, seed))
+            units.append(('display', ('error', ev, 'long'), ofc, timeout_ms, seed))
+        units.append(('display', ('value', 'LONG'), ofc, timeout_ms, seed))
         for nm, _ in ctx(ofc).meta.enums['Operator']:
             units.append(('display', ('operator', nm), ofc, timeout_ms, seed))
         for nm, _ in ctx(ofc).meta.enums['Token']:
